@@ -1,6 +1,6 @@
 SPECIFICATION MCSpec
 CONSTANTS
-  WaitC = {"c1", "c2"}
+  WaitC = {"c1"}
   CachedC = {}
   HandleC = {}
   Key2C = {}
@@ -11,12 +11,12 @@ CONSTANTS
   Keys = {1}
   MaxFetch = 1
   CanCancel = {}
-  ATOMIC = TRUE
+  ATOMIC = FALSE
   ENSURE_ATOMIC = TRUE
   EXIT_NOTIFY = TRUE
   COOP = FALSE
   LINGER = FALSE
-  RECLAIM = TRUE
+  RECLAIM = FALSE
   USED = FALSE
 INVARIANTS TypeOK SingleWorker DeadIsError HandleAfterDropIsError
 PROPERTIES NoLostWakeup CallersFinish DropStopsAll DeadStaysDead
